@@ -612,19 +612,35 @@ impl Relations {
 
             (current_entry.0.index(), to_insert)
         } else {
+            // Appending: which separator is needed depends on what the field ends with
             let child_count = self.0.children_with_tokens().count();
-            (
-                child_count,
-                if idx == 0 {
-                    vec![entry.0.green().into()]
+            let mut last = self.0.last_child_or_token();
+            let mut trailing_whitespace = false;
+            while let Some(l) = last.as_ref() {
+                if l.kind() == WHITESPACE || l.kind() == NEWLINE {
+                    trailing_whitespace = true;
+                    last = l.prev_sibling_or_token();
                 } else {
-                    vec![
-                        NodeOrToken::Token(GreenToken::new(COMMA.into(), ",")),
-                        NodeOrToken::Token(GreenToken::new(WHITESPACE.into(), " ")),
-                        entry.0.green().into(),
-                    ]
-                },
-            )
+                    break;
+                }
+            }
+            let mut to_insert: Vec<NodeOrToken<GreenNode, GreenToken>> = vec![];
+            match last.map(|l| l.kind()) {
+                // nothing yet: no separator
+                None => {}
+                // a trailing comma: reuse it
+                Some(COMMA) => {
+                    if !trailing_whitespace {
+                        to_insert.push(NodeOrToken::Token(GreenToken::new(WHITESPACE.into(), " ")));
+                    }
+                }
+                Some(_) => {
+                    to_insert.push(NodeOrToken::Token(GreenToken::new(COMMA.into(), ",")));
+                    to_insert.push(NodeOrToken::Token(GreenToken::new(WHITESPACE.into(), " ")));
+                }
+            }
+            to_insert.push(entry.0.green().into());
+            (child_count, to_insert)
         };
         // We can safely replace the root here since Relations is a root node
         self.0 = SyntaxNode::new_root_mut(
